@@ -856,13 +856,15 @@ impl FileTransferPlugin {
         // we dont check noar here again
         let mut args_iter = msg.into_iter();
         if let Some(arg0) = args_iter.next() {
-            if arg0.scod() == DLT_SCOD_ASCII && arg0.payload_raw.len() == 5 {
+            if arg0.is_string() && arg0.scod() == DLT_SCOD_ASCII && arg0.payload_raw.len() == 5 {
                 // todo hardcoded for perfo 4 plus 0
-                if arg0.payload_raw[0..4].eq(type_str.as_bytes()) {
+                if arg0.payload_raw[0..4].eq(type_str.as_bytes()) && arg0.payload_raw[4] == 0 {
                     if let Some(arg1) = args_iter.last() {
-                        if arg1.scod() == DLT_SCOD_ASCII
+                        if arg1.is_string()
+                            && arg1.scod() == DLT_SCOD_ASCII
                             && arg1.payload_raw.len() == 5
                             && arg1.payload_raw[0..4].eq(type_str.as_bytes())
+                            && arg1.payload_raw[4] == 0
                         {
                             return true;
                         }
